@@ -1040,6 +1040,9 @@ func (io *invertedIndexOpaque) Reset() (err error) {
 	io.reusableFieldTFs = io.reusableFieldTFs[:0]
 
 	io.tmp0 = io.tmp0[:0]
+	for k := range io.fieldAddrs {
+		delete(io.fieldAddrs, k)
+	}
 	io.extraDocValues = nil
 	atomic.StoreUint64(&io.bytesWritten, 0)
 	io.fieldsSame = false
